@@ -25,7 +25,7 @@ TAG_PROPERTY = {
     "mon.payload.guard": "C14", "mon.payload.life": "C14", "mon.payload.prev": "C14",
     "mon.report": "C16", "strA": "C16", "hist": "C16", "lg": "C16",
     "log.methods": "C16", "log.requests": "C16", "log.statuses": "C16", "log.resolutions": "C16", "log.order": "C16",
-    "draws": "C12", "mon.random.count": "C12", "mon.random.rank": "C12", "mon.random.zero": "C12", "mon.random.ids": "C12",
+    "draws": "C12", "log.utilities": "C12", "mon.random.count": "C12", "mon.random.rank": "C12", "mon.random.zero": "C12", "mon.random.ids": "C12",
     "asserts": "C11", "allocs": "C11",
     "buf": "C08", "mon.load.act": "C08", "mon.load.res": "C08", "mon.load.exit": "C08", "mon.load.enter": "C08",
     "ret": "C09", "mon.replay.act": "C09", "mon.replay.res": "C09",
@@ -34,10 +34,10 @@ CONFIG_TAGS = {"act", "isA", "res", "ev.guard.requested"}
 UNATTRIBUTED = {"ev.life", "ev.report", "ev.all"}
 
 TIERS = {
-    "quick": dict(fixtures=["min", "comp", "ortho", "strat", "auto", "peers", "util", "plancap", "bare", "floaty", "utilortho", "selutil"], records=900, chunks=3,
+    "quick": dict(fixtures=["min", "comp", "ortho", "strat", "auto", "peers", "util", "plancap", "bare", "floaty", "utilortho", "selutil", "oroot3"], records=900, chunks=3,
                   variants=["plain", "asan", "assert"], extra_variant_fixtures=["min", "ortho", "auto"],
                   mc=["min", "comp", "util", "selutil"], mc_pair=["min"], systematic={"auto": 2, "ortho": 1}),
-    "thorough": dict(fixtures=["min", "comp", "ortho", "strat", "auto", "peers", "oroot", "wide", "plan", "selpeers", "util", "plancap", "bare", "floaty", "utilortho", "selutil"],
+    "thorough": dict(fixtures=["min", "comp", "ortho", "strat", "auto", "peers", "oroot", "wide", "plan", "selpeers", "util", "plancap", "bare", "floaty", "utilortho", "selutil", "oroot3"],
                      records=12000, chunks=12, variants=["plain", "asan", "assert", "dev", "plain11"], mc=["min", "comp", "ortho", "oroot", "util", "peers", "selutil", "utilortho"], mc_pair=["min", "comp", "ortho"], mc_budget=300,
                      systematic={"min": 12, "comp": 10, "ortho": 8, "strat": 6, "auto": 10, "peers": 6, "oroot": 8, "plan": 6}),
 }
@@ -118,11 +118,20 @@ def campaign(tier, seed=SEED, log=print):
                 if crash:
                     crashes.append(dict(file=f, rc=crash[0], stderr=crash[1][-1500:], records=n))
                 files.append(f)
-            if variant == "plain":
+            if variant == "plain" and "TRANSITION_HISTORY" in gen.cfg_of(fx)["features"]:
+                f = os.path.join(cdir, "%s-%s-resume.ndjson" % (fxname, variant))
+                n, crash = explore.resume_scenarios(fx, exe, f)
+                if crash:
+                    crashes.append(dict(file=f, rc=crash[0], stderr=crash[1][-1500:], records=n))
+                if n:
+                    files.append(f)
+            if variant in ("plain", "asan", "assert"):
                 feats = set(gen.cfg_of(fx)["features"])
                 for kind, fn in (("replica", explore.replica_walk), ("copy", explore.copy_walk)):
                     if kind == "replica" and not {"TRANSITION_HISTORY", "SERIALIZATION"} <= feats:
                         continue
+                    if variant != "plain" and (kind == "copy" or (variant == "assert" and gen.cfg_of(fx)["manual"])):
+                        continue        # (over-long replays are also run under the sanitizers and the assertion hook)
                     f = os.path.join(cdir, "%s-%s-%s.ndjson" % (fxname, variant, kind))
                     s = (seed * 31337 + sum(map(ord, fxname + kind))) & 0x7fffffff
                     n, crash = fn(fx, exe, f, s, max(150, nrec // 6))
@@ -236,7 +245,7 @@ def route(run, d, rec_kinds=None):
 STAGES = [
     ("C05", {"ev.traverse"}),
     ("C06", {"ev.plan", "ev.status", "succ", "fail", "hst", "sst"}),
-    ("C12", {"draws"}),
+    ("C12", {"draws", "log.utilities"}),
     ("CFG", {"ev.guard.requested", "act", "isA", "res"}),
     ("C06", {"plans", "pex", "tasks", "plog"}),     # plan edits made from lifecycle callbacks come after the resolution
                                                     # (C07 when user code edited a plan in that step, see primary())
